@@ -45,6 +45,35 @@ pub fn all() -> Vec<Prop> {
             ],
         },
         Prop {
+            id: "C10",
+            title: "Controller follows the documented protocol for every possible sign reply",
+            level: "exploration",
+            exhaustive: false,
+            rule: "one evaluation = one seeded call (configure, configure_if_needed, send_pages with 0-3 pages, show_loaded_page, load_next_page, shut_down; all 11 sign types, addresses across the range) of the real Sign against the adversarial bus; at every message the controller must emit exactly what the executable reference model of the documented protocol prescribes for the replies so far, and the call must end exactly when and how the model ends. Non-trivial = every run; distinct = distinct event-log hashes. distinct_primary_measure = distinct whole conversations (call, message hashes, reply classes); distinct_secondary_measure = distinct (model location x reply class) pairs hit.",
+            real: &["Sign", "Page", "SignType::to_bytes"],
+            stubs: &["AdversarialBus (draws every reply)", "ControllerModel (reference model, the oracle)"],
+            assumptions: &[
+                "sampling, not proof",
+                "the reference model pins the current behaviour at the three points where the documentation leaves a choice (marked in DESIGN.md C10): any non-own-Unconfigured/ReadyToReset first reply triggers a full reset; configure_if_needed re-sends Hello; any final reply other than own ShowingPages means Manual",
+                "polling loops are bounded by the adversary (at most 8 consecutive in-progress answers, only protocol-advancing replies after 120 messages)",
+                "flipdot is compiled from /repo's working tree with --cfg flipdot_verif, opt-level 2, overflow-checks and debug-assertions on",
+            ],
+        },
+        Prop {
+            id: "C11",
+            title: "Controller: no unconfirmed success, fail-stop, bounded retries, own address only",
+            level: "exploration",
+            exhaustive: false,
+            rule: "same runs as C10 (own seed stream), judged by invariants over the recorded conversation only (I1 own address on every addressed message, I2 bus error is final and propagated, I3 a reply outside the allowed set for its position is final and reported as a protocol error, I4 at most 3 attempts and retries only after own 'failed', I5 success only after own 'received', I6 a foreign address never has the effect of the own one). The reference model is used only to bias the adversary towards long conversations, never as the oracle. Non-trivial = every run; distinct = distinct event-log hashes.",
+            real: &["Sign", "Page", "SignType::to_bytes"],
+            stubs: &["AdversarialBus (draws every reply)", "conversation invariant checker (the oracle)", "ControllerModel (steers the adversary only)"],
+            assumptions: &[
+                "sampling, not proof",
+                "allowed reply sets per position are derived from the emitted messages only (DESIGN.md C11)",
+                "flipdot is compiled from /repo's working tree with --cfg flipdot_verif, opt-level 2, overflow-checks and debug-assertions on",
+            ],
+        },
+        Prop {
             id: "C12",
             title: "A virtual sign never panics, whatever is sent on the bus",
             level: "exploration",
